@@ -17,7 +17,7 @@
 //! * [`quiesce`]: yield until the poll counters of the given sockets have
 //!   been stable for [`QUIESCE_STABLE`] consecutive yields.
 //! * [`play`]: applies a script of [`Ev`] (deliver k octets / notify / close /
-//!   short write / settle) and records the output length and octets consumed
+//!   short write / write budget / settle) and records the output length and octets consumed
 //!   at every settle point.
 //! * [`join_within`]: waits for a task with a simulated-time horizon; the
 //!   paused clock auto-advances only when nothing is runnable, i.e. only to
@@ -30,6 +30,9 @@
 //!   socket then sets the `livelock` flag and fails the read with
 //!   `ErrorKind::Other("rtr_sched livelock guard")`, which is what gets a
 //!   subject out of a loop that never leaves a single poll.
+//! * **flood**: a subject that has written more than [`OUTPUT_CAP`] octets
+//!   gets its writes failed and the `flood` flag set (a response loop that
+//!   never waits for input).
 //! * **spin**: [`quiesce`] gives up after [`QUIESCE_CAP`] yields (a task that
 //!   keeps waking itself).
 //! * **hang**: decided by the caller: the subject is still pending at
@@ -58,6 +61,8 @@ pub const QUIESCE_STABLE: u32 = 2;
 pub const QUIESCE_CAP: u32 = 20_000;
 /// Default simulated-time horizon.
 pub const HORIZON: Duration = Duration::from_secs(3600);
+/// Octets a subject may write before the flood guard fails its writes.
+pub const OUTPUT_CAP: usize = 8 << 20;
 /// Message of the error the livelock guard injects.
 pub const LIVELOCK_MSG: &str = "rtr_sched livelock guard";
 
@@ -94,6 +99,7 @@ struct Inner {
     write_chunk: Option<usize>,
     short_next: Option<usize>,
     write_blocked: bool,
+    write_budget: Option<usize>,
     read_waker: Option<Waker>,
     write_waker: Option<Waker>,
     read_polls: u64,
@@ -105,6 +111,7 @@ struct Inner {
     polls_after_eof: u64,
     zero_len_reads: u64,
     livelock: bool,
+    flood: bool,
     out: Vec<u8>,
     writes: u64,
     subject_shutdown: bool,
@@ -184,13 +191,25 @@ impl AsyncWrite for ScriptedSock {
         if let Some(kind) = g.write_error {
             return Poll::Ready(Err(kind.into()))
         }
+        if g.out.len() > OUTPUT_CAP {
+            g.flood = true;
+            return Poll::Ready(Err(io::Error::other("rtr_sched output cap")))
+        }
         if g.write_blocked {
             g.write_waker = Some(cx.waker().clone());
             return Poll::Pending
         }
         let mut n = buf.len();
+        if let Some(left) = g.write_budget {
+            if left == 0 {
+                g.write_waker = Some(cx.waker().clone());
+                return Poll::Pending
+            }
+            n = n.min(left);
+        }
         if let Some(c) = g.short_next.take() { n = n.min(c.max(1)) }
         else if let Some(c) = g.write_chunk { n = n.min(c.max(1)) }
+        if let Some(left) = g.write_budget { g.write_budget = Some(left - n) }
         g.out.extend_from_slice(&buf[..n]);
         g.writes += 1;
         Poll::Ready(Ok(n))
@@ -269,6 +288,17 @@ impl SockCtl {
         if let Some(w) = w { w.wake() }
     }
 
+    /// Back-pressure after `n` more octets: writes accept `n` octets in
+    /// total and are pending from then on (`None`: no limit, wakes a parked
+    /// writer).
+    pub fn set_write_budget(&self, n: Option<usize>) {
+        let w = { let mut g = lock(&self.0); g.write_budget = n; if n.is_some() { None } else { g.write_waker.take() } };
+        if let Some(w) = w { w.wake() }
+    }
+
+    /// A writer is parked on this socket.
+    pub fn writer_parked(&self) -> bool { lock(&self.0).write_waker.is_some() }
+
     //--- what the subject did
 
     /// Everything the subject has written so far.
@@ -289,6 +319,8 @@ impl SockCtl {
     pub fn polls_after_eof(&self) -> u64 { lock(&self.0).polls_after_eof }
     /// The livelock guard has tripped.
     pub fn livelock(&self) -> bool { lock(&self.0).livelock }
+    /// The subject wrote more than `OUTPUT_CAP` octets (its writes fail from then on).
+    pub fn flood(&self) -> bool { lock(&self.0).flood }
     /// The subject called shutdown on the socket.
     pub fn subject_shutdown(&self) -> bool { lock(&self.0).subject_shutdown }
     /// The subject has dropped its end (for a server connection: the
@@ -307,6 +339,16 @@ impl SockCtl {
         let g = lock(&self.0);
         g.read_polls + g.write_polls + g.flush_polls + g.shutdown_polls + g.dropped as u64
     }
+}
+
+
+/// Moves everything `from`'s subject has written into `to`'s inbox (two
+/// scripted sockets back to back make a duplex link whose transfer moments
+/// the driver controls). Returns the number of octets moved.
+pub fn pump(from: &SockCtl, to: &SockCtl) -> usize {
+    let data = from.take_output();
+    if !data.is_empty() { to.deliver(&data) }
+    data.len()
 }
 
 
@@ -357,6 +399,10 @@ pub enum Ev {
     WriteChunk(usize),
     /// Every further read returns at most k octets.
     ReadChunk(usize),
+    /// Writes accept k more octets and are pending after that.
+    WriteBudget(usize),
+    /// Lifts the write budget (a parked writer is woken).
+    Unblock,
     /// Run to quiescence.
     Settle,
 }
@@ -373,6 +419,8 @@ pub fn render_script(script: &[Ev]) -> String {
             Ev::ShortWrite(k) => s.push_str(&format!("w{k}")),
             Ev::WriteChunk(k) => s.push_str(&format!("W{k}")),
             Ev::ReadChunk(k) => s.push_str(&format!("R{k}")),
+            Ev::WriteBudget(k) => s.push_str(&format!("B{k}")),
+            Ev::Unblock => s.push('U'),
             Ev::Settle => s.push('|'),
         }
     }
@@ -391,6 +439,8 @@ pub fn parse_script(s: &str) -> Option<Vec<Ev>> {
             b'w' => Ev::ShortWrite(num(tok)?),
             b'W' => Ev::WriteChunk(num(tok)?),
             b'R' => Ev::ReadChunk(num(tok)?),
+            b'B' => Ev::WriteBudget(num(tok)?),
+            b'U' => Ev::Unblock,
             b'|' => Ev::Settle,
             _ => return None,
         });
@@ -443,6 +493,8 @@ pub async fn play(
             Ev::ShortWrite(k) => ctl.short_next_write(k),
             Ev::WriteChunk(k) => ctl.set_write_chunk(Some(k)),
             Ev::ReadChunk(k) => ctl.set_read_chunk(Some(k)),
+            Ev::WriteBudget(k) => ctl.set_write_budget(Some(k)),
+            Ev::Unblock => ctl.set_write_budget(None),
             Ev::Settle => {
                 let q = quiesce(&[ctl]).await;
                 tr.spin |= q.spin;
